@@ -63,6 +63,8 @@ FIXED = [
      {"tt": "object", "st": "object", "rules": [["allOf", {"tt": "array", "src": 1, "items": [{"tt": "reference", "src": 1, "v": "@p"}, {"tt": "reference", "src": 1, "v": "@q"}]}]], "ch": [{"tt": "number", "st": "integer", "key": "own", "v": "1"}]}),
     ("{} // {additionalProperties: \"true\"}", [],
      {"tt": "object", "st": "object", "rules": [["additionalProperties", {"tt": "string", "src": 1, "v": "true"}]]}),
+    ("1 /* {enum: [\n 1, // one  \n 2 // two\t\n]} */", [],
+     {"tt": "number", "st": "enum", "v": "1", "rules": [["enum", {"tt": "array", "src": 1, "items": [{"tt": "number", "src": 1, "v": "1", "c": "one"}, {"tt": "number", "src": 1, "v": "2", "c": "two"}]}]]}),
     ("{} // {additionalProperties: true}", [],
      {"tt": "object", "st": "object", "rules": [["additionalProperties", {"tt": "boolean", "src": 1, "v": "true"}]]}),
 ]
